@@ -20,10 +20,10 @@ from common import Ctx, Failure, cjson, cnat, copt, cstr, corpus_cases, shrink_l
 COQ_TARGETS = ["props/P_C15.vo", "corr/Corr_C15.vo"]
 PROOF_FILES = ["proofs/Cache_proofs.v"]
 RULE = ("histories of offer(kind, metadata, spec) / delete(kind, name[, version]) / delete-by-metadata / lookup / "
-        "system-data lookup over 2 kinds x 3 names x a pool of 3 versions (so versions go back and forth), with "
+        "system-data lookup over 4 kinds (two of them distinct classes sharing one class name) x 3 names x a pool of 3 versions (so versions go back and forth), with "
         "preparers that succeed, return PermFail/Retry/Skip/DepSkip outcomes or raise, malformed metadata, and "
         "version-guarded deletes naming current, stale and unknown versions: exhaustive short histories over a "
-        "10-letter alphabet plus random histories of <= 30 ops; every prefix is compared; a history is non-trivial "
+        "13-letter alphabet plus random histories of <= 30 ops; every prefix is compared; a history is non-trivial "
         "when some key is offered under >= 2 versions and something is deleted; distinct by content")
 ASSUMPTIONS = [
     "offers declare no dependencies (preparer returns (value, None), (value, []) or a non-Ok outcome): no re-prepare "
@@ -32,9 +32,11 @@ ASSUMPTIONS = [
     "resource names and versions are non-empty strings (anything falsy is rejected with TypeError by _extract_meta)",
     "operations of one history run sequentially (each call is awaited before the next starts)",
 ]
-TRUSTED = ["module-private state is read through koreo.cache.__CACHE; time.monotonic is replaced by a call counter"]
+TRUSTED = ["the cache contents are read through get_resource_system_data_from_cache for every (kind, name) of the "
+           "universe and cross-checked against the key set of the module-private __CACHE; time.monotonic is replaced "
+           "by a call counter"]
 
-KINDS = 2
+KINDS = 4
 NAMES = ["a", "b", "c"]
 VERSIONS = ["1", "2", "3"]
 ERR_MODES = ["permfail", "retry", "skip", "depskip"]
@@ -46,7 +48,14 @@ class KA: ...
 class KB: ...
 
 
-KCLS = [KA, KB]
+def _same_name_kind():
+    return type("Kind", (), {})
+
+
+# kinds 0/1 have different class names; kinds 2/3 are DISTINCT classes that share __name__/__qualname__/__module__
+# (the same class name defined twice, as happens across modules): a kind is the class object, not its name
+KCLS = [KA, KB, _same_name_kind(), _same_name_kind()]
+assert KCLS[2] is not KCLS[3] and KCLS[2].__qualname__ == KCLS[3].__qualname__
 
 
 class Prepared:
@@ -138,13 +147,36 @@ class Runner:
                 "at": int(e.prepared_at), "sys": e.system_data}
 
     def observe(self):
-        raw = getattr(self.cache, "__CACHE")
+        """The cache as the PUBLIC lookups show it for every (kind, name) of the universe, cross-checked against
+        the module-private dict; anything unreadable or inconsistent there becomes an item the model cannot
+        match (a correspondence mismatch), never a crash."""
         items = []
-        for k, e in raw.items():
-            d = self.entry(e)
-            d["cls"], d["name"] = KCLS.index(k.resource_type), k.name
-            items.append(d)
-        items.sort(key=lambda d: (d["cls"], d["name"]))
+        for cls in range(KINDS):
+            for name in NAMES:
+                try:
+                    e = self.cache.get_resource_system_data_from_cache(KCLS[cls], name)
+                    if e is None:
+                        continue
+                    d = self.entry(e)
+                except Exception as ex:  # noqa: BLE001
+                    d = {"spec": {"unreadable": type(ex).__name__}, "value": ["other", "?"], "version": "?",
+                         "at": 0, "sys": None}
+                d["cls"], d["name"] = cls, name
+                items.append(d)
+        problem = None
+        try:
+            raw = getattr(self.cache, "__CACHE")
+            seen = set()
+            for k in raw:
+                kk = (KCLS.index(k.resource_type), k.name)       # registry.Resource(resource_type, name)
+                seen.add(kk)
+            if seen != {(d["cls"], d["name"]) for d in items}:
+                problem = "keys of __CACHE differ from what the public lookups show"
+        except Exception as ex:  # noqa: BLE001
+            problem = f"__CACHE not readable as Resource(kind, name) -> entry: {type(ex).__name__}"
+        if problem:
+            items.append({"cls": 4999, "name": "<internal>", "spec": {"problem": problem}, "value": ["other", "?"],
+                          "version": "?", "at": 0, "sys": None})
         return {"items": copy.deepcopy(items), "clock": self.clock.calls, "log": [list(x) for x in self.log]}
 
     async def apply(self, op):
@@ -206,7 +238,10 @@ def run_ops(ops):
                         lk[(cls, name)] = (r.ident(v), None if sd is None else sd.resource_version)
                 looks.append(lk)
             from koreo import cache as _c
-            tasks = len(_c._REPREPARE_TASKS)
+            try:
+                tasks = len(_c._REPREPARE_TASKS)
+            except Exception:  # noqa: BLE001
+                tasks = 0
             return out, r.contract, looks, tasks
         finally:
             r.close()
@@ -403,6 +438,9 @@ def alphabet():
         ["delete", 0, "a", "2"],
         ["delres", 0, meta("a", "1")],
         ["lookupsys", 0, "a"],
+        ["offer", 2, meta("a", "1"), {"mode": "ok"}, None],         # kinds 2 and 3: distinct classes, same class name
+        ["offer", 3, meta("a", "1"), {"mode": "ok"}, None],
+        ["delete", 3, "a", None],
     ]
 
 
@@ -444,7 +482,7 @@ def rand_history(rng, length, nkeys):
     ops = []
     offered = {}                       # key -> versions offered so far (generator-side, for targeted deletes)
     for _ in range(length):
-        cls = rng.randrange(KINDS) if rng.random() < 0.5 else 0
+        cls = rng.choice([0, 0, 0, 0, 1, 1, 2, 2, 3, 3])
         name = rng.choice(names)
         x = rng.random()
         if ops and rng.random() < 0.1:
